@@ -632,6 +632,149 @@ class EnsureLoaded(FnSpec):
         ]
 
 
+# ---- _load_plugin: checks before anything is initialised ----------------------------------------------------------------------------------------
+HAS_PLUGIN_SECTION = z3.Bool("class_has_an_inner_Plugin_section")
+INFO_REFUSED, COMMON_REFUSED, GROUP_REFUSED = z3.Bools("plugin_info_does_not_parse common_check_refuses group_check_refuses")
+DepS = z3.DeclareSort("PluginDependency")
+
+
+class TDep:
+    def sort(self):
+        return DepS
+
+    def wrap(self, t):
+        return DepV(t)
+
+    def unwrap(self, cx, v):
+        return v.t
+
+
+class DepV(SVal):
+    def __init__(self, t):
+        self.t = t
+
+    def py_getattr(self, cx, n):
+        if n == "group":
+            return DepGroupKey(self.t)
+        raise Unsupported("dependency attribute " + n)
+
+
+class DepGroupKey(SVal):
+    def __init__(self, t):
+        self.t = t
+
+
+class LoadPlugin(FnSpec):
+    file = "plugin/interface.py"
+    qual = "PluginGroup._load_plugin"
+    props = ("C16", "C13")
+
+    def init(self):
+        from pyvc.containers import SSet
+
+        def inv(cx, env, it):
+            a = cx.ghost["lp"]
+            d = z3.Const(fresh_name("ld"), DepS)
+            return [("dependencies-so-far-ensured-in-their-own-group", z3.ForAll([d], a.ensured.has(d) == z3.Select(it.processed, d)))]
+
+        self.loops[0] = LoopSpec(inv, modifies=["dep_ref", "dep_grp"], havoc_inplace=["self.ensured_log"])
+
+    def setup(self, cx):
+        from pyvc.containers import SSet
+
+        me = SObj("PluginGroupLoad", name="self")
+        deps = SSet.fresh(TDep(), "explicit_dependencies")
+        ensured = SSet(TDep())
+        me.fields["ensured_log"] = ensured
+
+        class PluginDict(SVal):
+            def meth_get(s, cx2, k):
+                if k != "Plugin":
+                    raise Unsupported("another key of the class dict")
+                return SBool(HAS_PLUGIN_SECTION)
+
+        class PluginCls(SVal):
+            def __init__(s):
+                s.info = "raw-plugin-section"
+
+            def py_getattr(s, cx2, n):
+                if n == "__dict__":
+                    return PluginDict()
+                if n == "Plugin":
+                    return s.info
+                raise Unsupported("plugin class attribute " + n)
+
+            def py_setattr(s, cx2, n, v):
+                if n != "Plugin":
+                    raise Unsupported("assignment to plugin class attribute " + n)
+                cx2.effect("set-parsed-info", v)
+                s.info = v
+
+        class InfoCls(SVal):
+            def meth_parse_info(s, cx2, raw, **kw):
+                cx2.effect("parse-info", raw, kw.get("ep_name"))
+                if cx2.decide(INFO_REFUSED):
+                    cx2.py_raise("TypeError", "plugin info does not parse / does not agree with the entry point name")
+                return "parsed-plugin-info"
+
+        class GroupInfo(SVal):
+            def py_getattr(s, cx2, n):
+                if n == "plugin_info_class":
+                    return InfoCls()
+                raise Unsupported("group Plugin attribute " + n)
+
+        me.fields["Plugin"] = GroupInfo()
+
+        def refusing(tag, cond):
+            def f(cx2, epn, plugin):
+                cx2.effect(tag, epn, plugin)
+                if cx2.decide(cond):
+                    cx2.py_raise("TypeError", tag + " refuses")
+
+            return f
+
+        me.fields["_check_common"] = refusing("common-check", COMMON_REFUSED)
+        me.fields["check_plugin"] = refusing("group-check", GROUP_REFUSED)
+        me.fields["_explicit_plugin_deps"] = lambda cx2, p: (cx2.effect("deps"), deps)[1]
+        me.fields["init_plugin"] = lambda cx2, p: cx2.effect("init", p)
+
+        class DepGroup(SVal):
+            def __init__(s, key):
+                s.key = key
+
+            def meth__ensure_is_loaded(s, cx2, dep):
+                cx2.oblige("dependency-loaded-in-the-group-it-names", "call-pre", z3.BoolVal(isinstance(dep, DepV)) if not isinstance(dep, DepV) else dep.t == s.key.t, clause="a dependency is ensured in the plugin group its own reference names")
+                ensured.py_call_method(cx2, "add", [dep], {})
+
+        class Groups(SVal):
+            def py_getitem(s, cx2, k):
+                if not isinstance(k, DepGroupKey):
+                    raise Unsupported("plugingroups[...] of something else")
+                return DepGroup(k)
+
+        self.bindings["plugingroups"] = Groups()
+        a = A(self=me, ep_name=SStr.fresh("ep_name"), plugin=PluginCls())
+        a.deps, a.ensured = deps, ensured
+        cx.ghost["lp"] = a
+        return a
+
+    def raises(self, cx, a):
+        return {"TypeError": z3.Or(z3.Not(HAS_PLUGIN_SECTION), INFO_REFUSED, COMMON_REFUSED, GROUP_REFUSED)}
+
+    def on_raise(self, cx, a, exc):
+        return [("a-refused-plugin-is-never-initialised", z3.BoolVal(not [e for e in cx.fx if e[0] in ("init", "deps")]), "a plugin that fails any check is neither initialised nor are its dependencies loaded")]
+
+    def ensures(self, cx, a, res):
+        kinds = [e[0] for e in cx.fx]
+        d = z3.Const(fresh_name("ed"), DepS)
+        ok_order = kinds == ["parse-info", "set-parsed-info", "common-check", "group-check", "deps", "init"]
+        ok_args = ok_order and cx.fx[0][1] == "raw-plugin-section" and cx.fx[0][2] is a.ep_name and cx.fx[1][1] == "parsed-plugin-info" and cx.fx[2][1] is a.ep_name and cx.fx[2][2] is a.plugin and cx.fx[3][1] is a.ep_name and cx.fx[3][2] is a.plugin and cx.fx[5][1] is a.plugin
+        return [
+            ("info-parsed-against-the-entry-point-name-then-both-checks-then-init", z3.BoolVal(bool(ok_args)), "the inner Plugin section is parsed against the entry point name it was registered under, the common check and the group's own check (for schemas: the type and override checks of C13) run on the class, and only then it is initialised"),
+            ("every-declared-dependency-loaded-before-init", z3.ForAll([d], a.ensured.has(d) == a.deps.has(d)), "all explicit dependencies are ensured, each in its own group, before the plugin is initialised"),
+        ]
+
+
 class Versions(FnSpec):
     file = "plugin/interface.py"
     qual = "PluginGroup.versions"
@@ -843,6 +986,7 @@ def build(reg):
     reg.set_class_home("PluginGroupForGet", "plugin/interface.py", "PluginGroup")
     reg.set_class_home("PluginGroupLookup", "plugin/interface.py", "PluginGroup")
     reg.set_class_home("PluginGroupLookup2", "plugin/interface.py", "PluginGroup")
+    reg.set_class_home("PluginGroupLoad", "plugin/interface.py", "PluginGroup")
     reg.method_bindings[("PluginGroupLookup2", "__contains__")] = lambda cx, g, k: SBool(KEY_IN_GROUP)
 
     def get_unsafe(cx, g, name, version=None):
@@ -854,7 +998,7 @@ def build(reg):
         return PluginCls(cid)
 
     reg.method_bindings[("PluginGroupForGet", "_get_unsafe")] = get_unsafe
-    specs = [EqSpec(), GeSpec(), SupportsSpec(), HashSpec(), GtFromGe(), LeFromGe(), LtFromGe(), AddEp(), ManualRegister(), Versions(), Resolve(), GroupGet(), GroupContains(), GetUnsafe(), GroupGetItem(), EnsureLoaded()]
+    specs = [EqSpec(), GeSpec(), SupportsSpec(), HashSpec(), GtFromGe(), LeFromGe(), LtFromGe(), AddEp(), ManualRegister(), Versions(), Resolve(), GroupGet(), GroupContains(), GetUnsafe(), GroupGetItem(), EnsureLoaded(), LoadPlugin()]
     for s in specs + [HasNamespace()]:
         reg.add(s)
     specs = specs + epnames.add_epnames(reg, FromEpName)
